@@ -7,9 +7,10 @@
    hand-written model of Pipeline/RankGraph.v, held to the code by the correspondence check.  Strings
    are lists of code points; [s_of "MI"] is the literal [77; 73]. *)
 From Coq Require Import String Ascii.
-From Coq Require Import List NArith ZArith QArith Bool Arith.
-From Outrank Require Import Pipeline.RankGraph Pipeline.RankGraphProofs Pipeline.DispatchProofs
-  Gen.Dispatch Gen.DocNames.
+From Coq Require Import Reals List NArith ZArith QArith Qreals Bool Arith.
+From Outrank Require Import Common.RSum MI.Model MI.Spec.
+From Outrank Require Import Pipeline.RankGraph Pipeline.RankGraphProofs Pipeline.Scorers Pipeline.ScorersProofs
+  Pipeline.DispatchProofs Gen.Dispatch Gen.DocNames.
 Import ListNotations.
 Close Scope Q_scope.
 Open Scope string_scope.
@@ -27,16 +28,25 @@ Theorem C05_table :
   dispatch (s_of "Constant") = Const.
 Proof. exact dispatch_table. Qed.
 
-(* no heuristic name used by the project's own docs / examples / scripts / benchmarks silently degrades
-   to the constant fallback (what fix 9278e7c repaired for MI-numba-3mr) *)
-Theorem C05_no_silent_constant : forall name, In name doc_names -> surrogate_name name = false ->
-  dispatch name <> Fallback.
+(* NO heuristic name used by the project's own docs / examples / scripts / benchmarks falls through to the warning +
+   constant-0 branch — no exemption (what fixes 9278e7c and 71517fc repaired); surrogate names reach the surrogate scorer *)
+Theorem C05_no_silent_constant : forall name, In name doc_names -> dispatch name <> Fallback.
 Proof. exact no_silent_constant. Qed.
 
 Theorem C05_doc_names_nonvacuous :
-  In (s_of "MI-numba-randomized") doc_names /\ surrogate_name (s_of "MI-numba-randomized") = false /\
-  existsb (fun h => negb (surrogate_name h)) doc_names = true.
+  In (s_of "MI-numba-randomized") doc_names /\ (2 <= length doc_names)%nat.
 Proof. exact doc_names_nonvacuous. Qed.
+
+(* the other two tests of the name on the scoring path (regenerated from core_ranking.py): the no-scoring shortcut is
+   taken exactly for the name dispatched to Const (ALL strings); '3mr' only goes with the plain numba estimator *)
+Theorem C05_const_branch_iff : forall h, is_const_name h = true <-> dispatch h = Const.
+Proof. exact const_branch_iff. Qed.
+
+Theorem C05_3mr_names_plain :
+  (forall name, In name doc_names -> is_3mr_name name = true -> dispatch name = NumbaMI false) /\
+  is_3mr_name (s_of "MI-numba-3mr") = true /\ is_3mr_name (s_of "MI-numba-randomized") = false /\
+  is_3mr_name (s_of "MI") = false /\ is_3mr_name (s_of "Constant") = false.
+Proof. exact three_mr_names_plain. Qed.
 
 (* for ALL strings: the cardinality correction is on for exactly one name *)
 Theorem C05_flag_only_randomized : forall h, dispatch h = NumbaMI true -> h = s_of "MI-numba-randomized".
@@ -110,23 +120,104 @@ Proof. exact maxcov_prefix_refuted. Qed.
 Theorem C05_maxcov_old_only_upper : forall a b, (maxcov a b <= maxcov_old a b)%Q.
 Proof. exact maxcov_old_ge. Qed.
 
-(* ---- rows: every emitted triplet carries the scorer's value on the two coded columns ------------ *)
+(* ---- rows: the value of every emitted triplet, per heuristic NAME --------------------------------- *)
 
-(* [sc] is the selected scorer (an oracle for this theorem); [pairs] the evaluated combinations *)
-Theorem C05_rows : forall (score : Type) (sc : list N -> list N -> score) f lbl pairs row,
-  In row (rank_rows sc f lbl pairs) ->
-  exists a b, In (a, b) pairs /\
-    (row = (a, b, eval_pair sc f lbl (a, b)) \/ row = (b, a, eval_pair sc f lbl (a, b))) /\
-    eval_pair sc f lbl (a, b)
-      = sc (codes (col f (fst (orient lbl (a, b))))) (codes (col f (snd (orient lbl (a, b))))) /\
-    (a = lbl \/ b = lbl -> snd (orient lbl (a, b)) = lbl).
-Proof. exact (@rank_rows_spec). Qed.
+(* [rows_for dispatch is_const_name h f lbl pairs] = the triplets of one batch for the heuristic name [h] over the
+   evaluated combinations [pairs]: generated dispatch + generated Constant test + hand model (codes, orient, mirror).
+   [sem s F T] (Pipeline/Scorers.v) = the real number scorer tag [s] is specified to return on code vectors F (input)
+   and T (conditioning); None for the library oracles (Pearson, AMI, surrogates).
+   [wf_frame f n]: distinct column names, every column of length n > 0; [pairs_in f pairs]: the pairs name columns of f. *)
+Definition batch_rows := rows_for dispatch is_const_name.
 
-Theorem C05_rows_complete : forall (score : Type) (sc : list N -> list N -> score) f lbl pairs a b,
-  In (a, b) pairs ->
-  In (a, b, eval_pair sc f lbl (a, b)) (rank_rows sc f lbl pairs) /\
-  In (b, a, eval_pair sc f lbl (a, b)) (rank_rows sc f lbl pairs).
-Proof. exact (@rank_rows_complete). Qed.
+(* every row of a scored batch is an evaluated pair or its mirror and carries the meaning of the dispatched scorer on
+   the codes of the two oriented columns; the label is the conditioning side whenever it is in the pair *)
+Theorem C05_row_value : forall h f n lbl pairs a b x,
+  wf_frame f n -> pairs_in f pairs -> is_const_name h = false ->
+  In (a, b, x) (batch_rows h f lbl pairs) ->
+  exists p F T cF cT,
+    In p pairs /\ ((a, b) = p \/ (a, b) = (snd p, fst p)) /\
+    (F, T) = orient lbl p /\ In (F, cF) f /\ In (T, cT) f /\ length cF = n /\ length cT = n /\
+    (fst p = lbl \/ snd p = lbl -> T = lbl) /\
+    x = sem (dispatch h) (codes cF) (codes cT).
+Proof. exact (row_value dispatch is_const_name). Qed.
+
+(* the row SET, per branch.  Scored heuristics: each evaluated pair yields the triplet and its mirror ... *)
+Theorem C05_rows_scored : forall h f lbl pairs, is_const_name h = false ->
+  batch_rows h f lbl pairs = rank_rows (sem (dispatch h)) f lbl pairs /\
+  forall a b, In (a, b) pairs ->
+    In (a, b, eval_pair (sem (dispatch h)) f lbl (a, b)) (batch_rows h f lbl pairs) /\
+    In (b, a, eval_pair (sem (dispatch h)) f lbl (a, b)) (batch_rows h f lbl pairs).
+Proof.
+  intros h f lbl pairs E. unfold batch_rows. rewrite (rows_for_scored dispatch is_const_name) by exact E.
+  split; [reflexivity|]. intros a b Hin. exact (rank_rows_complete (sem (dispatch h)) f lbl pairs a b Hin).
+Qed.
+
+(* ... Constant: exactly ONE row per evaluated combination, in the listed orientation, NO mirror, score 0 *)
+Theorem C05_rows_constant : forall h f lbl pairs, is_const_name h = true ->
+  batch_rows h f lbl pairs = map (fun p => (fst p, snd p, Some 0%R)) pairs.
+Proof. exact (rows_for_const dispatch is_const_name). Qed.
+
+Theorem C05_value_constant : forall f lbl pairs a b x,
+  In (a, b, x) (batch_rows (s_of "Constant") f lbl pairs) -> In (a, b) pairs /\ x = Some 0%R.
+Proof.
+  intros f lbl pairs a b x Hin.
+  rewrite (rows_for_const dispatch is_const_name) in Hin by (vm_compute; reflexivity).
+  apply in_map_iff in Hin. destruct Hin as [[a0 b0] [E Hp]]. simpl in E. injection E as -> -> <-. auto.
+Qed.
+
+(* the words of the property.  Names MI, MI-numba, MI-numba-3mr: plug-in mutual information of the two coded columns
+   (C01_plugin for the numba estimator; sklearn's estimator is specified as the plug-in value) *)
+Theorem C05_value_plugin : forall h F T,
+  h = s_of "MI" \/ h = s_of "MI-numba" \/ h = s_of "MI-numba-3mr" ->
+  length F = length T -> (0 < length T)%nat ->
+  is_const_name h = false /\
+  sem (dispatch h) (codes F) (codes T) = Some (MI_plugin (zc (codes F)) (zc (codes T))).
+Proof.
+  intros h F T Hh HL Hp.
+  assert (Hs : dispatch h = SkMI \/ dispatch h = NumbaMI false).
+  { destruct Hh as [-> | [-> | ->]]; vm_compute; auto. }
+  split; [destruct Hh as [-> | [-> | ->]]; vm_compute; reflexivity|].
+  apply sem_plugin; [exact Hs| |]; rewrite !codes_length; assumption.
+Qed.
+
+(* MI-numba-randomized: the cardinality-corrected score = displaced-copy noise floor minus conditional entropy
+   (C03_identity) when the two code vectors differ, the entropy (C03_self) when they coincide *)
+Theorem C05_value_randomized : forall F T, length F = length T -> (0 < length T)%nat ->
+  dispatch (s_of "MI-numba-randomized") = NumbaMI true /\ is_const_name (s_of "MI-numba-randomized") = false /\
+  (codes F <> codes T ->
+     sem (NumbaMI true) (codes F) (codes T)
+     = Some (Hcond (displace (zc (codes F)) (zc (codes T))) (zc (codes T)) - Hcond (zc (codes F)) (zc (codes T)))%R) /\
+  (codes F = codes T -> sem (NumbaMI true) (codes F) (codes T) = Some (Spec.H (zc (codes F)))).
+Proof.
+  intros F T HL Hp. split; [vm_compute; reflexivity|]. split; [vm_compute; reflexivity|].
+  apply sem_corrected; rewrite !codes_length; assumption.
+Qed.
+
+(* max-value-coverage: the largest joint-value frequency (characterised by C05_maxcov_exact), as a real *)
+Theorem C05_value_maxcov : forall F T,
+  dispatch (s_of "max-value-coverage") = MaxCov /\ is_const_name (s_of "max-value-coverage") = false /\
+  sem MaxCov (codes F) (codes T) = Some (Q2R (maxcov (codes F) (codes T))).
+Proof. intros F T. split; [vm_compute; reflexivity|]. split; [vm_compute; reflexivity|]. reflexivity. Qed.
+
+(* the library scorers are oracles: the model assigns them no value (the check compares them with the library called
+   on the model's codes) *)
+Theorem C05_oracles : forall F T, sem Pearson F T = None /\ sem AMI F T = None /\ sem Surrogate F T = None.
+Proof. intros. repeat split. Qed.
+
+(* non-vacuity of the row theorems: a 2-column frame, one evaluated pair *)
+Example C05_rows_example :
+  let f := [(s_of "a", [s_of "x"; s_of "y"; s_of "x"]); (s_of "label", [s_of "1"; s_of "0"; s_of "1"])] in
+  wf_frame f 3 /\ pairs_in f [(s_of "label", s_of "a")] /\
+  map fst (batch_rows (s_of "MI-numba-randomized") f (s_of "label") [(s_of "label", s_of "a")])
+    = [(s_of "a", s_of "label"); (s_of "label", s_of "a")] /\
+  map fst (batch_rows (s_of "Constant") f (s_of "label") [(s_of "label", s_of "a")]) = [(s_of "label", s_of "a")].
+Proof.
+  cbv zeta. split; [|split; [|split; reflexivity]].
+  - split; [|split; [repeat constructor|]].
+    + simpl. constructor; [intros [E|[]]; discriminate E|constructor; [intros []|constructor]].
+    + intros c [<-|[<-|[]]]; reflexivity.
+  - intros p [<-|[]]. simpl. split; [right; left; reflexivity|left; reflexivity].
+Qed.
 
 Print Assumptions C05_table.
 Print Assumptions C05_no_silent_constant.
@@ -140,5 +231,13 @@ Print Assumptions C05_orientation.
 Print Assumptions C05_maxcov_exact.
 Print Assumptions C05_maxcov_prefix_refuted.
 Print Assumptions C05_maxcov_old_only_upper.
-Print Assumptions C05_rows.
-Print Assumptions C05_rows_complete.
+Print Assumptions C05_const_branch_iff.
+Print Assumptions C05_3mr_names_plain.
+Print Assumptions C05_row_value.
+Print Assumptions C05_rows_scored.
+Print Assumptions C05_rows_constant.
+Print Assumptions C05_value_constant.
+Print Assumptions C05_value_plugin.
+Print Assumptions C05_value_randomized.
+Print Assumptions C05_value_maxcov.
+Print Assumptions C05_oracles.
